@@ -490,3 +490,58 @@ func hasMutex(nm *types.Named) bool {
 	}
 	return false
 }
+
+// InteriorReturn reports a pointer result that addresses a PART of the object
+// a pointer parameter (the receiver) points to — &p.field, &p.arr[i] — reached
+// without a load.  Returning the parameter itself (the chaining idiom
+// "return p") is not an interior pointer.
+func InteriorReturn(fn *ssa.Function) (param int, pos token.Pos, found bool) {
+	var trace func(v ssa.Value, depth int, interior bool) (int, bool)
+	trace = func(v ssa.Value, depth int, interior bool) (int, bool) {
+		if depth > 12 {
+			return 0, false
+		}
+		switch x := v.(type) {
+		case *ssa.FieldAddr:
+			return trace(x.X, depth+1, true)
+		case *ssa.IndexAddr:
+			if _, isPtr := x.X.Type().Underlying().(*types.Pointer); isPtr {
+				return trace(x.X, depth+1, true)
+			}
+			return 0, false
+		case *ssa.Phi:
+			for _, e := range x.Edges {
+				if i, ok := trace(e, depth+1, interior); ok {
+					return i, true
+				}
+			}
+		case *ssa.Parameter:
+			if !interior {
+				return 0, false
+			}
+			for i, p := range fn.Params {
+				if p == x {
+					return i, true
+				}
+			}
+		}
+		return 0, false
+	}
+	for _, b := range fn.Blocks {
+		for _, in := range b.Instrs {
+			r, ok := in.(*ssa.Return)
+			if !ok {
+				continue
+			}
+			for _, v := range r.Results {
+				if _, isPtr := v.Type().Underlying().(*types.Pointer); !isPtr {
+					continue
+				}
+				if i, ok := trace(v, 0, false); ok {
+					return i, r.Pos(), true
+				}
+			}
+		}
+	}
+	return 0, token.NoPos, false
+}
